@@ -965,7 +965,9 @@ NUMERIC_FIELDS = {"time", "channel", "note", "velocity", "control", "program", "
 
 
 def misc_hazard_rules(ctx: Ctx, functions) -> int:
-    """Four more exact hazard classes, none of which occurs in the library today:
+    """Five more exact hazard classes, none of which occurs in the library today:
+    OBJTRUTH a local that is always an instance of a library class defining neither __bool__ nor __len__ used as a truth value:
+            `if piece:` is constantly true, where `if len(piece._messages) > 0:` was meant;
     TRUTHY  a numeric message field (or a local copied from one) used as a truth value -- 0 is a legal time, channel, pitch and
             velocity, so `if msg.time:` / `msg.velocity or 127` treat a legal value as missing;
     EXCEPT  a bare / broad `except` whose handler does not re-raise (a failure inside an operation is swallowed);
@@ -973,7 +975,7 @@ def misc_hazard_rules(ctx: Ctx, functions) -> int:
     CLASSATTR an assignment to an attribute of a class object at run time (state shared by all instances)."""
     p = ctx.p
     n = 0
-    bad = {"TRUTHY": [], "EXCEPT": [], "SETORDER": [], "CLASSATTR": []}
+    bad = {"TRUTHY": [], "OBJTRUTH": [], "EXCEPT": [], "SETORDER": [], "CLASSATTR": []}
 
     def field_expr(e, field_locals):
         if isinstance(e, ast.Attribute) and e.attr in NUMERIC_FIELDS and not isinstance(e.value, ast.Call):
@@ -988,10 +990,79 @@ def misc_hazard_rules(ctx: Ctx, functions) -> int:
             yield from truth_operands(t.operand)
         else:
             yield t
+    def has_truth_protocol(cname, seen=()):
+        ci = p.classes.get(cname)
+        if ci is None or cname in seen:
+            return True                                     # outside the library: unknown, assume it has one
+        if any(isinstance(m, (ast.FunctionDef, ast.AsyncFunctionDef)) and m.name in ("__bool__", "__len__") for m in ci.node.body):
+            return True
+        bases = [b.id if isinstance(b, ast.Name) else getattr(b, "attr", None) for b in ci.node.bases]
+        return any(b not in ("object", "ABC", "Enum") and has_truth_protocol(b, seen + (cname,)) for b in bases if b)
+
+    def instance_locals(fn):
+        """Locals of `fn` every binding of which is an instance of a library class without __bool__/__len__ (their truth value
+        is constantly True).  Bindings: constructor calls, copies of such locals, parameters annotated with such a class."""
+        binds: dict[str, list] = {}
+        args = fn.args
+        defaults = dict(zip([a.arg for a in args.args][len(args.args) - len(args.defaults):], args.defaults))
+        for a in args.args + args.kwonlyargs:
+            if a.arg in ("self", "cls"):
+                continue
+            binds.setdefault(a.arg, []).append(("ann", a.annotation, defaults.get(a.arg)))
+        for a in ast.walk(fn):
+            tgts = []
+            if isinstance(a, ast.Assign):
+                tgts = [(t, a.value) for t in a.targets]
+            elif isinstance(a, ast.AnnAssign) and a.value is not None:
+                tgts = [(a.target, a.value)]
+            elif isinstance(a, (ast.AugAssign,)):
+                tgts = [(a.target, None)]
+            elif isinstance(a, (ast.For, ast.comprehension)):
+                tgts = [(a.target, None)]
+            elif isinstance(a, ast.withitem) and a.optional_vars is not None:
+                tgts = [(a.optional_vars, None)]
+            elif isinstance(a, ast.NamedExpr):
+                tgts = [(a.target, a.value)]
+            for t, v in tgts:
+                for nm in ast.walk(t):
+                    if isinstance(nm, ast.Name):
+                        binds.setdefault(nm.id, []).append(("val", v if nm is t else None, None))
+        known: dict[str, bool] = {}
+
+        def cls_of_value(v, stack):
+            if isinstance(v, ast.Call) and isinstance(v.func, ast.Name) and v.func.id in p.classes:
+                return not has_truth_protocol(v.func.id)
+            if isinstance(v, ast.Name):
+                return resolve(v.id, stack)
+            return False
+
+        def resolve(name, stack=()):
+            if name in known:
+                return known[name]
+            if name in stack:
+                return True                                  # a cycle of copies adds nothing
+            bs = binds.get(name)
+            if not bs:
+                return False
+            ok = True
+            for kind, x, dflt in bs:
+                if kind == "ann":
+                    nm = x.id if isinstance(x, ast.Name) else (x.value if isinstance(x, ast.Constant) and isinstance(x.value, str) else None)
+                    ok = ok and nm in p.classes and not has_truth_protocol(nm) and dflt is None
+                else:
+                    ok = ok and x is not None and cls_of_value(x, stack + (name,))
+                if not ok:
+                    break
+            if not stack:
+                known[name] = ok
+            return ok
+        return {nm for nm in binds if resolve(nm)}
+
     for q in sorted(functions):
         fi = p.functions.get(q)
         if fi is None:
             continue
+        always_true = instance_locals(fi.node)
         field_locals = {a.targets[0].id for a in ast.walk(fi.node) if isinstance(a, ast.Assign) and len(a.targets) == 1 and isinstance(a.targets[0], ast.Name)
                         and isinstance(a.value, ast.Attribute) and a.value.attr in NUMERIC_FIELDS}
         # a name that is also assigned something else is not a pure field copy
@@ -1011,6 +1082,8 @@ def misc_hazard_rules(ctx: Ctx, functions) -> int:
                 n += 1
                 if field_expr(t, field_locals):
                     bad["TRUTHY"].append((fi, t))
+                elif isinstance(t, ast.Name) and t.id in always_true:
+                    bad["OBJTRUTH"].append((fi, t))
             if isinstance(x, ast.ExceptHandler):
                 n += 1
                 broad = x.type is None or (isinstance(x.type, ast.Name) and x.type.id in ("Exception", "BaseException"))
@@ -1029,6 +1102,7 @@ def misc_hazard_rules(ctx: Ctx, functions) -> int:
                         if ch and len(ch) == 3 and ch[:2] == ["self", "__class__"]:
                             bad["CLASSATTR"].append((fi, x))
     texts = {"TRUTHY": ("a numeric message field is used as a truth value", "0 is a legal value and would be treated as absent"),
+             "OBJTRUTH": ("an object without __bool__/__len__ is used as a truth value", "the test is constantly true: the class defines neither __bool__ nor __len__, so an empty sequence object is not falsy"),
              "EXCEPT": ("a broad except swallows failures", "an error inside the operation leaves a half-updated result without any signal"),
              "SETORDER": ("a set is iterated to produce ordered output", "the order of the produced elements is arbitrary"),
              "CLASSATTR": ("a class attribute is assigned at run time", "the value is shared by all instances and by all later calls")}
